@@ -159,10 +159,10 @@ theorem C12_assign_data_preserves (o r : Obj) (d : DRef) (ho : invE o) (h : setD
     every live root satisfies the invariant (and has no literal `%2E` in a name), no object identity occurs
     twice in the whole store (no structure is shared between handles) and every identity is below the
     allocation counter.  The only guard: names given to `new` quote to something without `.` and without a
-    literal `%2E` (`Op.ok`); all other arguments of all operations are arbitrary. -/
-theorem C12_invariant_all_histories (ops : List Op) (h : ∀ op ∈ ops, op.ok) :
+    literal `%2E` (`Op.scope`, evaluated by the driver on every generated history); all other arguments of all operations are arbitrary. -/
+theorem C12_invariant_all_histories (ops : List Op) (h : ∀ op ∈ ops, op.scope = true) :
     Inv (run State.init ops) ∧ ∀ o, some o ∈ (run State.init ops).handles → escO o = true := by
-  have := run_good ops State.init good_init h
+  have := run_good ops State.init good_init (fun op ho => (Op.ok_iff_scope op).2 (h op ho))
   obtain ⟨a, b⟩ := this
   have c := (oidInv_iff _).1 b
   exact ⟨⟨fun o hm => (invO_iff o).1 (a o hm).1, c.1, c.2⟩, fun o hm => (a o hm).2⟩
@@ -171,20 +171,21 @@ theorem C12_invariant_all_histories (ops : List Op) (h : ∀ op ∈ ops, op.ok) 
     `copy.copy(handle[path])` adds one handle; every object reachable from it is new (identity ≥ the
     allocation counter, hence different from every live object), and it has the name, id, classes,
     attribute values and the very data objects of its source -/
-theorem C12_copy_separate (ops : List Op) (hok : ∀ op ∈ ops, op.ok) (hh : Nat) (path : List Str) (s' : State)
+theorem C12_copy_separate (ops : List Op) (hok : ∀ op ∈ ops, op.scope = true) (hh : Nat) (path : List Str) (s' : State)
     (h : stepE (run State.init ops) (.copy hh path) = .ok s') :
     ∃ o src r, (run State.init ops).get hh = .ok o ∧ navigate path o = .ok src
       ∧ s'.handles = (run State.init ops).handles ++ [some r]
       ∧ (∀ x ∈ r.oids, (run State.init ops).next ≤ x ∧ x ∉ (run State.init ops).oids)
       ∧ nameId r = nameId src ∧ contentsO r = contentsO src :=
-  copy_fresh _ s' hh path (run_good ops State.init good_init hok) h
+  copy_fresh _ s' hh path (run_good ops State.init good_init (fun op ho => (Op.ok_iff_scope op).2 (hok op ho))) h
 
 /-- **sub-selections do not share structure** -/
-theorem C12_select_separate (ops : List Op) (hok : ∀ op ∈ ops, op.ok) (hh : Nat) (path keys : List Str)
+theorem C12_select_separate (ops : List Op) (hok : ∀ op ∈ ops, op.scope = true) (hh : Nat) (path keys : List Str)
     (s' : State) (h : stepE (run State.init ops) (.select hh path keys) = .ok s') :
     ∃ r, s'.handles = (run State.init ops).handles ++ [some r]
       ∧ (∀ x ∈ r.oids, (run State.init ops).next ≤ x ∧ x ∉ (run State.init ops).oids) :=
-  select_fresh_step _ s' hh path keys (run_good ops State.init good_init hok) h
+  select_fresh_step _ s' hh path keys
+    (run_good ops State.init good_init (fun op ho => (Op.ok_iff_scope op).2 (hok op ho))) h
 
 /-- **frame over histories**: after any history `ops`, let any further history `later` run (successful or
     failing operations).  A handle `j` that none of the later operations writes through (`Op.touches`: the
@@ -192,14 +193,16 @@ theorem C12_select_separate (ops : List Op) (hok : ∀ op ∈ ops, op.ok) (hh : 
     selection write through nothing) holds exactly the same tree afterwards: same children, keys, visible
     keys, ids, attributes, data objects and identities.  And at that point no object is reachable from two
     different handles, so nothing reachable from `j` was reachable from a handle that was written through. -/
-theorem C12_frame_histories (ops later : List Op) (hok : ∀ op ∈ ops, op.ok) (hok' : ∀ op ∈ later, op.ok)
+theorem C12_frame_histories (ops later : List Op) (hok : ∀ op ∈ ops, op.scope = true)
+    (hok' : ∀ op ∈ later, op.scope = true)
     (j : Nat) (hj : j < (run State.init ops).handles.length) (hn : ∀ op ∈ later, j ∉ op.touches) :
     (run (run State.init ops) later).handles[j]? = (run State.init ops).handles[j]?
     ∧ ∀ k a b, j ≠ k → (run (run State.init ops) later).handles[j]? = some (some a) →
         (run (run State.init ops) later).handles[k]? = some (some b) → ∀ x ∈ a.oids, x ∉ b.oids := by
   refine ⟨run_frame later _ j hj hn, ?_⟩
   intro k a b hjk ha hb
-  exact good_disjoint _ (run_good later _ (run_good ops State.init good_init hok) hok') j k a b hjk ha hb
+  exact good_disjoint _ (run_good later _ (run_good ops State.init good_init
+    (fun op ho => (Op.ok_iff_scope op).2 (hok op ho))) (fun op ho => (Op.ok_iff_scope op).2 (hok' op ho))) j k a b hjk ha hb
 
 /-- a history over the full alphabet: dataset `d ` with sequence `sq` holding `a b`; assign data to the sequence
     (propagates to the child), copy the dataset (handle 3), select `("a b",)` from `d["sq"]` (handle 4),
@@ -211,11 +214,7 @@ def demo2 : List Op :=
    .copy 0 [], .select 0 [[[115], [113]]] [[[97], [32], [98]]],
    .del 3 [[[115], [113]]] [[97], [37], [50], [48], [98]], .setAttr 4 [] [[117]] 1, .setData 3 [[[115], [113]]] 9]
 
-example : ∀ op ∈ demo2, op.ok := by
-  intro op h
-  simp only [demo2, List.mem_cons, List.not_mem_nil, or_false] at h
-  rcases h with rfl | rfl | rfl | rfl | rfl | rfl | rfl | rfl | rfl | rfl | rfl <;>
-    first | trivial | (simp only [Op.ok]; decide)
+example : ∀ op ∈ demo2, op.scope = true := by decide
 
 /-- all eleven operations succeed; the source still lists `sq.a%20b`, the copy lost it, the selection has its
     own id chain; seven objects, seven identities -/
